@@ -39,7 +39,7 @@ json.dump(meta,open(os.path.join(d,"meta.json"),"w"),indent=1)
 PY
       echo "$NAME: kept in $D"
     else
-      echo "$NAME: NOT kept (does not meet the three conditions)"; tail -5 "$WT/demo_clean.log" "$WT/suite.log" | head -30
+      echo "$NAME: NOT kept (does not meet the three conditions)"; tail -n 5 "$WT/demo_clean.log"; tail -n 5 "$WT/demo_patched.log"; tail -n 5 "$WT/suite.log"
       exit 1
     fi
     ;;
